@@ -1085,7 +1085,10 @@ helperHandleRead(const Comm::ConnectionPointer &conn, char *, size_t len, Comm::
                         ++msg;
                 } // else not enough data to compute request number
             }
-            if (!(srv->replyXaction = srv->popRequest(i))) {
+            // Do not look up (and consume) a request by a channel ID that may
+            // still be incomplete: the rest of the number arrives with the next
+            // read, and the whole line will be parsed again from its start.
+            if (!needsMore && !(srv->replyXaction = srv->popRequest(i))) {
                 if (srv->stats.timedout) {
                     debugs(84, 3, "Timedout reply received for request-ID: " << i << " , ignore");
                 } else {
